@@ -6,9 +6,13 @@ import (
 
 	_ "verif/harness/engines/authz"
 	_ "verif/harness/engines/cl"
+	_ "verif/harness/engines/classic"
+	_ "verif/harness/engines/gauges"
 	_ "verif/harness/engines/lockup"
 	_ "verif/harness/engines/mint"
+	_ "verif/harness/engines/router"
 	_ "verif/harness/engines/superfluid"
+	_ "verif/harness/engines/twap"
 	"verif/harness/simchain"
 	"verif/harness/simcore"
 )
